@@ -41,6 +41,36 @@ fn rates() -> Vec<Rate> {
     ]
 }
 
+/// every rate term of bounded shape: the six atoms, and Combined lists of length 0..max_len whose elements are atoms or
+/// Combined lists (length 1..2) over three further atoms — nested blocks in every position, after every kind of mapping
+fn rate_terms(max_len: usize) -> Vec<Rate> {
+    let atoms = vec![Rate::Zero, Rate::Raw, Rate::Factor(2.0), Rate::Factor(-2.0), Rate::Offset(1.0), Rate::Offset(-1.0)];
+    let inner_atoms = [Rate::Factor(0.5), Rate::Offset(3.0), Rate::Zero];
+    let mut elements = atoms.clone();
+    for a in inner_atoms.iter() {
+        elements.push(Rate::Combined(vec![a.clone()]));
+        for b in inner_atoms.iter() {
+            elements.push(Rate::Combined(vec![a.clone(), b.clone()]));
+        }
+    }
+    let mut out = atoms;
+    let mut lists: Vec<Vec<Rate>> = vec![vec![]];
+    out.push(Rate::Combined(vec![]));
+    for _ in 0..max_len {
+        let mut next = vec![];
+        for l in lists.iter() {
+            for e in elements.iter() {
+                let mut l2 = l.clone();
+                l2.push(e.clone());
+                out.push(Rate::Combined(l2.clone()));
+                next.push(l2);
+            }
+        }
+        lists = next;
+    }
+    out
+}
+
 #[derive(Clone, Debug, Serialize, Deserialize, PartialEq)]
 enum NetRate {
     Zero,
@@ -350,7 +380,8 @@ fn all_vecs(vals: &[f64], k: usize) -> Vec<Vec<f64>> {
 }
 
 fn configs(k: usize, tier: Tier) -> Vec<Cfg> {
-    let rs = rates();
+    // one feature: every rate term of bounded shape; two and three features: the eight hand-picked mappings
+    let rs = if k == 1 { rate_terms(tier.pick(2, 3)) } else { rates() };
     let nets = [NetRate::Zero, NetRate::Edge(3.0), NetRate::Pair(100.0), NetRate::Both(3.0, 100.0), NetRate::Edge(-0.5)];
     let mut out = vec![];
     let weight_vecs = all_vecs(&WEIGHTS, k);
@@ -446,7 +477,7 @@ pub fn run(tier: Tier) -> i32 {
     finish(
         &info,
         total,
-        "state = one cost configuration (1-3 features, weight vector over {-1,0,0.5,1,2} with non-zero sum, rate per feature from 8 mappings incl. nested combined, network rate from {none, edge lookup, edge-pair lookup, combined, negative edge lookup}, sum/mul); transition = one call of traversal_cost / access_cost / cost_estimate on a (prev,next) state pair from {-2..2}^k, or one forward/reverse EdgeTraversal with synthetic access/traversal models applying chosen deltas; non-trivial = negative weight or non-raw rate",
+        "state = one cost configuration (1-3 features, weight vector over {-1,0,0.5,1,2} with non-zero sum, rate per feature from 8 mappings incl. nested combined (one feature: every rate term of bounded shape - atoms and Combined lists up to length 2/3 whose elements are atoms or nested Combined lists), network rate from {none, edge lookup, edge-pair lookup, combined, negative edge lookup}, sum/mul); transition = one call of traversal_cost / access_cost / cost_estimate on a (prev,next) state pair from {-2..2}^k, or one forward/reverse EdgeTraversal with synthetic access/traversal models applying chosen deltas; non-trivial = negative weight or non-raw rate",
         true,
         json!({"features": "1..3", "state_values": VALS, "weights": WEIGHTS, "rate_mappings": 8, "network_rates": 5}),
         vec!["reference = closed-form sum over features of weight x rated change + surcharges, floored at 1e-10 (Cost::MIN_COST)".into()],
